@@ -312,6 +312,11 @@ def correspond(ctx):
     # the parts of the numeric core that are also REGENERATED from the source (Gen/Fit.v; equal to the hand model by Proofs/Bridge.v)
     kernels.merge_cross_check(out, 'C14', ['curvefitter_B0', 'curvefitter_B1', 'curvefitter_B2', 'curvefitter_B3', 'CurveFit_computeHook',
                                            'CurveFit_estimateBi', 'CurveFit_chordLengthParameterize'], ctx.n(25, 300), rng)
+    # the WHOLE fitter as regenerated from utils/curvefitter.py and path/__init__.py (round 6: tangents, generateBezier, Newton re-parameterisation, computeMaxError
+    # with the hook/corner logic, the recursion with its budget arithmetic and re-entry, fitCurve, fromPoints), proved to return what the hand model returns (Proofs/Bridge6.v)
+    kernels.merge_cross_check(out, 'C14', ['CurveFit_leftTangent', 'CurveFit_rightTangent', 'CurveFit_centerTangent', 'CurveFit_estimateLengths', 'CurveFit_generateBezier',
+                                           'CurveFit_newtonRaphsonFind', 'CurveFit_reparameterize', 'CurveFit_computeMaxError', 'CurveFit__fitCurve', 'CurveFit_fitCurve', 'Path_fromPoints'],
+                              ctx.n(12, 120), rng, label='regenerated-kernels-round6')
     return out
 
 
